@@ -123,6 +123,7 @@ def run(F, chk):
             rc.ok(key, b.where(oks[0][0]), "every Ok return is dominated by a false edge of the invalid-header flag")
         else:
             rc.violation(key, b.where(oks[0][0]), "%s can return Ok although an invalid header field was seen" % fn.split("::")[-1])
+    content_length_rule(F, chk)
     # ---------------- R-C03-d ----------------------------------------------------
     rd = chk.rule("R-C03-d", "T3", "an unparsable HTTP/1 request is answered 400 and never linked to a backend", floor=1)
     rdb = [p for p in F.paths() if p.startswith(MUX + "h1::ConnectionH1") and p.endswith("::readable") and "{closure" not in p]
@@ -188,3 +189,34 @@ def run(F, chk):
                 re_.ok(key, b.where(emits[0]), "emission dominated by is_connection_specific_header()==false %s" % edges)
             else:
                 re_.violation(key, b.where(emits[0]), "a regular header can be HPACK-encoded without having passed is_connection_specific_header()==false: Connection/Keep-Alive/Transfer-Encoding/Upgrade could cross into HTTP/2")
+
+
+def content_length_rule(F, chk):
+    """R-C03-f: an H2 content-length field is accepted only after set_content_length recorded its value: from the
+    `name is content-length` edge of write_regular_header no path reaches the Ok return without set_content_length
+    (a value that does not parse - e.g. overflows usize - must be rejected, not forwarded with framing recomputed)."""
+    r = chk.rule("R-C03-f", "T3", "content-length accepted only through set_content_length", floor=1)
+    b = F.body(PK + "write_regular_header")
+    r.fn(b.path)
+    starts = []
+    for bi, t in b.calls():
+        if not callee_of(t).endswith("compare_no_case"):
+            continue
+        consts = set()
+        for a in t["args"]:
+            consts |= {str(c) for c in guards.slice_of_operand(b, a)["consts"]}
+        if any("content-length" in c for c in consts):
+            for sb, f, tt, atom in guards.bool_switches(b):
+                if atom[0] == "call" and atom[2] is t:
+                    starts.append(tt)
+    if not r.require(starts, "write_regular_header: no comparison of the field name with content-length found"):
+        return
+    scl = [bi for bi, t in b.calls() if callee_of(t) == PK + "set_content_length"]
+    oks = [bi for bi, si, s in b.stmts() if s.get("lhs") == 0 and s.get("rv", {}).get("k") == "agg" and
+           s["rv"].get("adt") == "core::result::Result" and s["rv"].get("var") == "Ok"]
+    cut = b.reach_from(starts, removed=scl)
+    key = "%s|content-length => set_content_length" % b.path
+    if scl and not [x for x in oks if x in cut]:
+        r.ok(key, b.where(starts[0]), "every accepting path for a content-length field passes set_content_length")
+    else:
+        r.violation(key, b.where(starts[0]), "a content-length field can be accepted (Ok) without set_content_length having recorded it: an unparsable / overflowing value is forwarded while the body framing is recomputed (CL.TE / CL.CL)")
